@@ -252,6 +252,7 @@ struct Rw<'a> {
     index1: Vec<String>,
     boolor: bool,
     shl_total: bool,
+    collect_via: Option<String>,
     fold_loops: bool,
     for_range: bool,
     for_iter: bool,
@@ -264,6 +265,7 @@ struct Rw<'a> {
     loop_idx: Cell<usize>,
     loop_headers: RefCell<Vec<String>>,
     closure_idx: Cell<usize>,
+    hoisted: RefCell<Vec<String>>,
     call_idx: RefCell<BTreeMap<String, usize>>,
     let_idx: RefCell<BTreeMap<String, usize>>,
     used_sections: RefCell<Vec<String>>,
@@ -837,7 +839,7 @@ impl<'a, 'b, 'ast> Visit<'ast> for Collector<'a, 'b> {
                 let sp = e.span().byte_range();
                 self.edits.push((sp.start, sp.end, format!("{}neg_({x})", rw.fam(&[&u.expr]))));
             }
-            Expr::MethodCall(c) if c.method == "collect" && c.args.is_empty() && !(rw.for_iter && matches!(&*c.receiver, Expr::MethodCall(m) if m.method == "filter_map" || (m.method == "filter" && matches!(&*m.receiver, Expr::MethodCall(mm) if mm.method == "into_iter")) || (m.method == "map" && matches!(&*m.receiver, Expr::MethodCall(mm) if mm.method == "into_par_iter")))) => {
+            Expr::MethodCall(c) if c.method == "collect" && c.args.is_empty() && !(rw.for_iter && matches!(&*c.receiver, Expr::MethodCall(m) if m.method == "filter_map" || m.method == "cloned" || (rw.collect_via.is_some() && m.method == "map" && matches!(&*m.receiver, Expr::MethodCall(mm) if mm.method == "iter")) || (m.method == "filter" && matches!(&*m.receiver, Expr::MethodCall(mm) if mm.method == "into_iter")) || (m.method == "map" && matches!(&*m.receiver, Expr::MethodCall(mm) if mm.method == "into_par_iter")))) => {
                 // R8: (a..b).collect()
                 let mut inner = &*c.receiver;
                 while let Expr::Paren(p) = inner {
@@ -1155,6 +1157,42 @@ impl<'a, 'b, 'ast> Visit<'ast> for Collector<'a, 'b> {
                     let sp = e.span().byte_range();
                     self.edits.push((sp.start, sp.end, text));
                 }
+            }
+            Expr::MethodCall(c) if rw.for_iter && rw.collect_via.is_some() && c.method == "collect" && c.args.is_empty()
+                && matches!(&*c.receiver, Expr::MethodCall(mp) if mp.method == "map" && mp.args.len() == 1 && matches!(&mp.args[0], Expr::Closure(cl) if cl.inputs.len() == 1) && matches!(&*mp.receiver, Expr::MethodCall(it) if it.method == "iter" && it.args.is_empty())) => {
+                // R45 (options for_iter=1, collect_via=F): `E.iter().map(|P| B).collect()` into a user type T (FromIterator) ->
+                //   `F({ let mut out = Vec::new(); for P in E.iter() { out.push(B) } out })`, where the overlay's F(v) is `T::from_iter` on the items of v
+                //   (Iterator::collect is FromIterator::from_iter by definition; map yields B for each item in order)
+                if let Expr::MethodCall(mp) = &*c.receiver { if let (Expr::Closure(cl), Expr::MethodCall(it)) = (&mp.args[0], &*mp.receiver) {
+                    let idx = rw.loop_idx.get();
+                    rw.loop_idx.set(idx + 1);
+                    let a = e.span().byte_range().start;
+                    let b = cl.body.span().byte_range().start;
+                    rw.loop_headers.borrow_mut().push(rw.src[a..b].split_whitespace().collect::<Vec<_>>().join(" "));
+                    let newv = match &rw.vec_elem { Some(t) => format!("Vec::<{t}>::new()"), None => "Vec::new()".to_string() };
+                    let pat = rw.src[cl.inputs[0].span().byte_range()].trim().to_string();
+                    let src_it = rw.render_expr(&it.receiver);
+                    let body = rw.render_expr(&cl.body);
+                    let inv = rw.section(&format!("loop {idx}")).map(|t| mark(t)).unwrap_or_default();
+                    let braw = rw.section(&format!("loop {idx} begin-raw")).map(|t| format!("{}\n", mark(t))).unwrap_or_default();
+                    let begin = rw.section(&format!("loop {idx} begin")).map(|t| format!("proof {{ //@p\n{}\n}} //@p\n", mark(t))).unwrap_or_default();
+                    let end = rw.section(&format!("loop {idx} end")).map(|t| format!("proof {{ //@p\n{}\n}} //@p\n", mark(t))).unwrap_or_default();
+                    let after = rw.section(&format!("loop {idx} after")).map(|t| format!("proof {{ //@p\n{}\n}} //@p\n", mark(t))).unwrap_or_default();
+                    let via = rw.collect_via.clone().unwrap();
+                    let text = format!("{via}(({{ let mut __cout{idx} = {newv};\nmatch ({src_it}.iter()).into_iter() {{ mut __it{idx} => {{\nloop\n{inv}\n{{ match __it{idx}.next() {{ Some({pat}) => {{\n{braw}{begin}let __y{idx} = {body}; __cout{idx}.push(__y{idx});\n{end} }} None => {{ break; }} }} }}\n }} }}\n{after} __cout{idx} }}))");
+                    rw.count("R45");
+                    let sp = e.span().byte_range();
+                    self.edits.push((sp.start, sp.end, text));
+                } }
+            }
+            Expr::MethodCall(c) if rw.for_iter && c.method == "collect" && c.args.is_empty() && matches!(&*c.receiver, Expr::MethodCall(cl) if cl.method == "cloned" && cl.args.is_empty() && matches!(&*cl.receiver, Expr::MethodCall(it) if it.method == "iter" && it.args.is_empty())) => {
+                // R44 (option for_iter=1): `E.iter().cloned().collect()` -> `vec_cloned_(E)`: the Vec of clones of the elements of the slice / Vec E, in order
+                if let Expr::MethodCall(cl) = &*c.receiver { if let Expr::MethodCall(it) = &*cl.receiver {
+                    let text = format!("vec_cloned_({})", rw.render_expr(&it.receiver));
+                    rw.count("R44");
+                    let sp = e.span().byte_range();
+                    self.edits.push((sp.start, sp.end, text));
+                } }
             }
             Expr::MethodCall(c) if rw.for_iter && c.method == "flat_map" && c.args.len() == 1
                 && matches!(&*c.receiver, Expr::Call(z) if z.args.len() == 2 && matches!(&*z.func, Expr::Path(p) if p.path.is_ident("zip")) && matches!((&z.args[0], &z.args[1]), (Expr::Array(a), Expr::Array(b)) if a.elems.len() == b.elems.len()))
@@ -1568,6 +1606,19 @@ impl<'a, 'b, 'ast> Visit<'ast> for Collector<'a, 'b> {
                         let pre = rw.section(&format!("closure {idx} pre")).map(|t| format!("proof {{ //@p\n{}\n}} //@p\n", mark(t))).unwrap_or_default();
                         self.edits.push((sp.start, sp.end, format!("{} {{ {}{}{} }}", t.trim_end(), bind, pre, body)));
                         rw.count("R11");
+                        // optional "closure N hoist" (the closure captures only parameters of the function): the closure value is bound to
+                        // `__clN` at the top of the body and used by that name, so that proof text can refer to it
+                        if rw.section(&format!("closure {idx} hoist")).is_some() {
+                            let params = match (rw.section(&format!("closure {idx} typed")), rw.section(&format!("closure {idx} params"))) {
+                                (Some(pt), _) => pt.trim().to_string(),
+                                (_, Some(pt)) => pt.trim().to_string(),
+                                _ => c.inputs.iter().map(|p| rw.src[p.span().byte_range()].trim().to_string()).collect::<Vec<_>>().join(", "),
+                            };
+                            let mv = if c.capture.is_some() { "move " } else { "" };
+                            rw.hoisted.borrow_mut().push(format!("let __cl{idx} = {mv}|{params}| {} {{ {}{}{} }}; //@p\n", t.trim_end(), bind, pre, body));
+                            let whole = e.span().byte_range();
+                            self.edits.push((whole.start, whole.end, format!("__cl{idx}")));
+                        }
                     }
                     Some(t) => {
                         // closure with an explicit return type and a block body: the contract section replaces
@@ -1634,6 +1685,7 @@ fn extract_body(repo: &Path, source: &str, d: &Directive, variant: &str) -> Resu
         index1: d.opts.get("index1").map(|s| s.split(',').map(|x| x.to_string()).collect()).unwrap_or_default(),
         boolor: d.opts.get("boolor").map(|v| v == "1").unwrap_or(false),
         shl_total: d.opts.get("shl_total").map(|v| v == "1").unwrap_or(false),
+        collect_via: d.opts.get("collect_via").cloned(),
         fold_loops: d.opts.get("fold_loops").map(|v| v == "1").unwrap_or(false),
         for_range: d.opts.get("for_range").map(|v| v == "1").unwrap_or(false),
         for_iter: d.opts.get("for_iter").map(|v| v == "1").unwrap_or(false),
@@ -1646,6 +1698,7 @@ fn extract_body(repo: &Path, source: &str, d: &Directive, variant: &str) -> Resu
         loop_idx: Cell::new(0),
         loop_headers: RefCell::new(vec![]),
         closure_idx: Cell::new(0),
+        hoisted: RefCell::new(vec![]),
         call_idx: RefCell::new(BTreeMap::new()),
         let_idx: RefCell::new(BTreeMap::new()),
         used_sections: RefCell::new(vec![]),
@@ -1685,6 +1738,13 @@ fn extract_body(repo: &Path, source: &str, d: &Directive, variant: &str) -> Resu
         if !tail {
             let at = blk.brace_token.span.close().byte_range().start;
             c.edits.push((at, at, format!("\nproof {{ //@p\n{}\n}} //@p\n", mark(t))));
+        }
+    }
+    {
+        let h = rw.hoisted.borrow();
+        if !h.is_empty() {
+            let at = blk.brace_token.span.open().byte_range().end;
+            c.edits.push((at, at, format!("\n{}", h.join(""))));
         }
     }
     let text = apply_edits(&src, blk.span().byte_range(), c.edits);
